@@ -853,13 +853,16 @@ def f32(x):
 
 def decode_packet(port, chan, data, version):
     """independent decoder of the packets the two helpers may cause (CRTP port 7 generic commander, port 8 high-level
-    commander); anything else decodes to ('unknown', ...)"""
+    commander), AS A FIRMWARE WITH PROTOCOL VERSION `version` decodes them (type ids it knows, legacy decoders negate the
+    yaw rate — the firmware side documented in coq/C08/FwLayout.v); anything else decodes to ('unknown', ...)"""
     try:
         if port == 7 and chan == 0:
             t = data[0]
             if t == 0 and len(data) == 1:
                 return ('stop',)
             if t == 10 and len(data) == 17:
+                if version < 9:                                 # type 10 exists since protocol version 9: older firmware drops it
+                    return ('not_understood', 'generic setpoint type 10 (hover) by firmware with protocol version %d' % version)
                 vx, vy, yaw, z = struct.unpack('<ffff', data[1:])
                 return ('hover', vx, vy, yaw, z)
             if t == 5 and len(data) == 17:                      # legacy hover: the yaw rate travels negated
@@ -878,6 +881,8 @@ def decode_packet(port, chan, data, version):
                 _, g, h, yaw, cur, d = struct.unpack('<BBff?f', data)
                 return ('hl_land', h, d)
             if c == 12 and len(data) == 24:
+                if version < 8:                                 # GO_TO_2 exists since protocol version 8
+                    return ('not_understood', 'high-level command 12 (go_to_2) by firmware with protocol version %d' % version)
                 _, g, rel, lin, x, y, z, yaw, d = struct.unpack('<BBBBfffff', data)
                 return ('hl_go_to', x, y, z, yaw, d, rel, lin)
             if c == 4 and len(data) == 23:
@@ -912,7 +917,7 @@ def check_wire(case, r, consts):
     and: every commander call puts exactly its own packet on the wire"""
     fails = []
     ver = r['version']
-    sent = [(w[0],) + decode_packet(w[1], w[2], w[3], ver) for w in r['wire']]      # commanded (snapshot at send time)
+    sent = [(w[0],) + decode_packet(w[1], w[2], w[3], w[4]) for w in r['wire']]     # commanded (snapshot at send time)
     period = float(r['period'])
     # the link keeps packet references and serialises at transmit time: what went on the air must be what was commanded
     air = r['air']
@@ -920,15 +925,25 @@ def check_wire(case, r, consts):
         fails.append(('wire_transmitted_differs_from_commanded', 'not every sent packet was transmitted', len(r['wire']), len(air)))
         return fails
     for i, (w, a) in enumerate(zip(r['wire'], air)):
-        if w[1:] != a[1:]:
+        if w[1:4] != a[1:]:
             fails.append(('wire_transmitted_differs_from_commanded',
                           'packet %d was handed to the link at t=%s as %r but when the radio transmitted it (held %s packet(s) behind) '
                           'it read %r: a sent packet must keep its value' % (i, w[0], sent[i][1:], case.get('radio'),
-                                                                             decode_packet(a[1], a[2], a[3], ver)),
-                          sent[i][1:], decode_packet(a[1], a[2], a[3], ver)))
+                                                                             decode_packet(a[1], a[2], a[3], w[4])),
+                          sent[i][1:], decode_packet(a[1], a[2], a[3], w[4])))
             break
     # everything below is judged on the bytes actually transmitted, time-stamped with the send time
-    dec = [(w[0],) + decode_packet(a[1], a[2], a[3], ver) for w, a in zip(r['wire'], air)]
+    dec = [(w[0],) + decode_packet(a[1], a[2], a[3], w[4]) for w, a in zip(r['wire'], air)]
+    # every packet must be one the firmware connected in THAT session understands (the version may differ from flight to flight)
+    for i, d in enumerate(dec):
+        if d[1] in ('not_understood', 'unknown'):
+            fl_no = [k + 1 for k, f in enumerate(r['flights']) if f['w0'] <= i < f['w1']]
+            fails.append(('wire_not_understood_by_session_firmware',
+                          'packet %d (flight %s, t=%s): %s; session versions of the flights: %r' % (
+                              i, fl_no, d[0], d[2] if d[1] == 'not_understood' else 'unknown packet %r' % (d[2:],),
+                              [f.get('version', case.get('version', 10)) for f in case['flights']]),
+                          'a packet type known to protocol version %s' % r['wire'][i][4], d[1:]))
+            break
     for c in r['calls']:
         name, t, args, b, a = c
         exp = expected_packet(name, args)
@@ -1042,6 +1057,7 @@ def gen_wire_case(rng):
             if fl['kind'] == 'mc':
                 fl['default_height'] = None
         fl['epilogue'] = rng.choice(['0.5', '0.3', '1'])
+        fl['version'] = rng.choice([10, 10, 10, 9, 8, 8, 7, -1])       # the firmware of this session (reconnect between flights)
         flights.append(fl)
     m = rng.random()
     sched = [] if m < 0.4 else ([0] * 120 if m < 0.6 else [rng.randrange(2) for _ in range(120)])
@@ -1052,6 +1068,13 @@ def gen_wire_case(rng):
 
 def fixed_wire_cases():
     return [
+        {'kind': 'wire', 'version': 10, 'sched': [], 'radio': [], 'flights': [
+            {'kind': 'mc', 'version': 10, 'default_height': None, 'ops': [['turn_left', '90', None]]},
+            {'kind': 'mc', 'version': 8, 'default_height': None, 'ops': [['turn_left', '90', None], ['forward', '0.2', None]]},
+            {'kind': 'mc', 'version': -1, 'default_height': None, 'ops': [['turn_right', '45', None]]},
+            {'kind': 'mc', 'version': 9, 'default_height': None, 'ops': [['circle_left', '0.5', '1', '90']]},
+            {'kind': 'hl', 'version': 7, 'ops': [['go_to', '1', '0', '1', None]]},
+            {'kind': 'hl', 'version': 10, 'ops': [['go_to', '1', '0', '1', None]]}]},
         {'kind': 'wire', 'version': 10, 'sched': [], 'radio': [1], 'flights': [
             {'kind': 'mc', 'default_height': None, 'ops': [['forward', '0.02', '0.2'], ['up', '0.2', None], ['turn_left', '90', None]]}]},
         {'kind': 'wire', 'version': 8, 'sched': [0] * 40, 'radio': [2, 0, 1, 3], 'flights': [
